@@ -135,6 +135,28 @@ func (c *Ctx) jcsRules() {
 			}
 		})
 	}
+	// the same pairing written with a search function: i := bytes.IndexByte(tableA, x); i >= 0 ⇒ tableB[i]
+	for _, f := range cls {
+		forEachInstr(f, func(in ssa.Instruction) {
+			ia, ok := in.(*ssa.IndexAddr)
+			if !ok {
+				return
+			}
+			p := c.Path(ia.X, nil)
+			if !(strings.HasSuffix(p, "asciiEscapes") || strings.HasSuffix(p, "binaryEscapes")) {
+				return
+			}
+			cl, isC := ia.Index.(*ssa.Call)
+			if !isC || !isIndexSearch(cl) || len(cl.Call.Args) < 2 {
+				return
+			}
+			other := c.Path(cl.Call.Args[0], nil)
+			if (strings.HasSuffix(other, "asciiEscapes") || strings.HasSuffix(other, "binaryEscapes")) && other != p {
+				c.Check("C05.T1", "aligned-lookup:"+short(f.String()), true, ia.Pos(), "the other table is read at the position the search function found the entry in the first table")
+				aligned++
+			}
+		})
+	}
 	c.Check("C05.T1", "aligned-lookup:both-directions", aligned == 2, tr.Pos(), fmt.Sprintf("%d aligned cross-table lookups (reader and writer)", aligned))
 	c.Min("C05.T1", 5)
 
@@ -569,4 +591,17 @@ func keysOfBool(m map[string]bool) []string {
 	}
 	sort.Strings(ks)
 	return ks
+}
+
+// isIndexSearch: a standard-library search returning the position of the first match or -1.
+func isIndexSearch(cl *ssa.Call) bool {
+	g := cl.Call.StaticCallee()
+	if g == nil {
+		return false
+	}
+	switch g.String() {
+	case "bytes.IndexByte", "strings.IndexByte", "bytes.IndexRune", "strings.IndexRune":
+		return true
+	}
+	return g.Pkg != nil && g.Pkg.Pkg.Path() == "slices" && strings.HasPrefix(g.Name(), "Index")
 }
